@@ -247,6 +247,7 @@ func (g *c11Gen) attrs(n *xn, sc *c11Scope, void bool) {
 		}
 	}
 	cobj := false
+	subj52 := "" // step 5.2: the resource attribute names the subject
 	switch {
 	case relrev:
 		cobj = true
@@ -256,7 +257,7 @@ func (g *c11Gen) attrs(n *xn, sc *c11Scope, void bool) {
 		if !has("about") && (obj != "" || (has("typeof") && !hb)) {
 			fresh = obj == "" || (obj != sc.pobj && obj != sc.psubj)
 		}
-		obj = ""
+		subj52, obj = obj, ""
 	}
 	if (prop || has("rel")) && r.Chance(1, 5) && (!sc.chained || fresh) {
 		set("inlist", hx.Pick(r, []string{"", "inlist", "true"}))
@@ -284,6 +285,8 @@ func (g *c11Gen) attrs(n *xn, sc *c11Scope, void bool) {
 		sc.psubj, sc.pobj = "", ""
 		if has("about") {
 			sc.psubj = canon(get("about"))
+		} else if subj52 != "" {
+			sc.psubj = subj52
 		} else if obj != "" {
 			sc.psubj = obj
 		}
@@ -291,7 +294,14 @@ func (g *c11Gen) attrs(n *xn, sc *c11Scope, void bool) {
 	default:
 		// the parent object is the subject again: whatever held before still holds for the children
 		// (an element without @property is skipped: its children see the very same context)
-		if sc.chained && (prop || hb) {
+		switch {
+		case sc.chained && has("about"):
+			// the subject is the parent subject or the parent object again: the two readings of step 8 still differ below
+			sc.psubj = canon(get("about"))
+			sc.pobj = sc.psubj
+		case sc.chained && subj52 != "":
+			sc.psubj, sc.pobj = subj52, subj52
+		case sc.chained && (prop || hb):
 			sc.psubj = sc.pobj
 		}
 	}
@@ -410,7 +420,7 @@ func htmlWrite(r *hx.Rand, sb *strings.Builder, n *xn) {
 		case a[1] == "" && r.Bool():
 			// valueless
 		case r.Chance(1, 8) && a[1] != "" && !strings.ContainsAny(a[1], " \t\n\f\r\"'=<>`") && isASCII(a[1]) && !strings.HasSuffix(a[1], "/"):
-			// (golang.org/x/net/html reads a "/" right before ">" as the self-closing mark, not as part of the value)
+			// (with offset capture the tokenizer reads a "/" right before ">" as the self-closing mark, not as part of the value: F95)
 			sb.WriteString("=" + htmlEscape(r, a[1], true, 0))
 		case r.Chance(1, 4):
 			sb.WriteString("='" + htmlEscape(r, a[1], true, '\'') + "'")
@@ -496,7 +506,7 @@ func c11RDFa(r *hx.Rand, n int, out *hx.Out, _ []string) {
 		doc := c11HTMLText(rr, root)
 		var tk strings.Builder
 		root.tokens(&tk)
-		res := zooRun("htmlrdfa", []byte(doc), zooOpts{base: c11Location, offsets: rr.Chance(1, 4)})
+		res := zooRun("htmlrdfa", []byte(doc), zooOpts{base: c11Location})
 		impl, oracle := "!doc", ""
 		switch res.verdict {
 		case "ok":
